@@ -13,8 +13,8 @@ PROPS["C19"] = dict(
     parts=[dict(bin="e1_gf2")],
     rule="every system with v variables and <= e equations, each equation any non-empty strictly increasing variable list with any c-bit constant (ordered tuples of equations, so repeated/dependent/contradictory rows all occur); a system is non-trivial when it has >= 2 equations; each system is enumerated exactly once",
     alphabet="(v,e,c) spaces; both solvers; W in {usize,u8}",
-    bound={"quick": "(v<=e_max,c): (1,4,2) (2,4,2) (3,4,2) (4,3,2) (4,4,1) (5,3,1); u8 for v<=4,e<=3",
-           "thorough": "quick + (4,4,2) (3,5,2) (5,4,1) (6,3,1) (4,5,1)"},
+    bound={"quick": "(v<=e_max,c): (1,4,2) (2,4,2) (3,4,2) (4,3,2) (4,4,1) (5,3,1) (4,4,2) (6,3,1); u8 for v<=4,e<=3",
+           "thorough": "quick + (3,5,2) (5,4,1) (4,5,1) (5,4,2) (7,3,1)"},
     oracle="brute force over all 2^v assignments per bit-plane decides solvability; Ok(s) => solvable and s satisfies every equation (own evaluation and Modulo2System::check); Err => unsolvable; any panic is a violation",
     assumptions=STRICT,
 )
@@ -125,7 +125,7 @@ PROPS["C03"] = dict(
     parts=[dict(bin="e1_ef", opts={"prop": "C03"})],
     rule=EF_RULE + "; plus every invalid push (out of order, above u, (n+1)-th) after every prefix of every sequence with n <= 3",
     alphabet="builders push / extend / From<slice> / concurrent set in every permutation of indices (n<=4); back-ends plain, EfSeq, EfDict, EfSeqDict, SelectZeroAdapt(SelectAdapt), SelectZeroAdaptConst<2,1>(SelectAdaptConst<2,1>), SelectZeroAdapt(Select9(Rank9)), SelectZeroSmall(SelectSmall(RankSmall<1,9>))",
-    bound={"quick": "N=4, M=9, 4 values of u; n<=12 in (b)", "thorough": "N=5, M=12, 6 values of u; n<=40 in (b); all run lengths 1..=200 in (d)"},
+    bound={"quick": "N=5, M=12, 4-6 values of u; n<=12 in (b)", "thorough": "N=6, M=13, 6 values of u; n<=40 in (b); all run lengths 1..=200 in (d)"},
     oracle="the sequence itself: len, get(i) all i, iter/into_iter with exact len() before every next, iter_from(k)/into_iter_from(k) for every k in 0..=n; an invalid push panics and the builder continues as if it had not happened",
     assumptions=STRICT,
 )
